@@ -600,7 +600,7 @@ def replay_counterexample(pu, h, label, failure, work, tier, seed):
     tmap = {'Int': 'int', 'Long': 'long', 'Float': 'float'}
     if tl in tmap and tr in tmap and opid and opid.lstrip('-').isdigit() and 0 <= int(opid) < len(prof.strids):
         op = prof.strids[int(opid)].strip('"')
-        if op in ('+', '-', '*', '/', '%'):
+        if op in ('+', '-', '*', '/', '%', '>', '<', '>=', '<=', '==', '!='):
             cmds.append(['python3', os.path.join(_nat.ROOT, 'native', 'arith_oracle.py'), b, 'pair', tmap[tl], tmap[tr], op])
     cmds.append(['python3', os.path.join(_nat.ROOT, 'native', 'arith_oracle.py'), b, 'sweep', str(seed), '40'])
     tried = []
